@@ -31,9 +31,11 @@ class Plan:
         self.jobs.setdefault(key, label)
 
 
-def run_models(run, graph, specs, plan, opts):
+def run_models(run, graph, specs, plan, opts, request_sets=None):
     """specs: list of dict(pres, nreq, ce, mt, policy, requests, simulate, label)."""
     for sp in specs:
+        if isinstance(sp.get("requests"), str) and request_sets and sp["requests"] in request_sets:
+            sp["requests"] = request_sets[sp["requests"]]
         reqs = sp.get("requests") or (graph["keys"] + graph["helpers"])
         kw = {}
         inv = list(sp.get("invariants") or M.INVARIANTS)
@@ -151,6 +153,11 @@ def binding_demo(run, graph, seed):
             e["key"] = "velx"
             break
     v = M.validate_traces(graph, M.INPUT_SETS["tensors"], True, [good, bad1, bad2])
+    if 1 in v["rejected"] and not v["violated"]:
+        # the unmodified trace itself no longer conforms (the code drifted from the model): reported as drift, the demo says nothing
+        run.note_drift(f"binding demo: the recorded trace of [Hamiltonian, gdet, Ktrace] stops matching the model at event {v['rejected'][1]}")
+        run.add_tlc(v["res"], "binding demo (skipped: the good trace is rejected)")
+        return
     ok = (1 not in v["rejected"]) and (2 in v["rejected"]) and (3 in v["rejected"]) and not v["violated"]
     run.add_tlc(v["res"], "binding demo (1 good + 2 corrupted traces)")
     run.info["binding_demo"] = {"good_accepted": 1 not in v["rejected"], "corrupted_eviction_rejected_at": v["rejected"].get(2),
